@@ -63,6 +63,12 @@ def fan3(ch1, ch2, menu=(1, 2), end=5, order=("A", "B", "C")):
     return dict(family="fan3", comps=[T("A", menu, outs=["o"]), T("B", menu, ins=["i"]), T("C", menu, ins=["i"])], links=[L("A", "o", "B", "i", ch1), L("A", "o", "C", "i", ch2)], order=list(order), end=end)
 
 
+def fan3trunk(trunk, ch1, ch2, menu=(1, 2), end=5, order=("A", "B", "C")):
+    """A.o >> trunk adapters >> [ch1 >> B.i, ch2 >> C.i]: fan-out behind shared pass-through adapters"""
+    return dict(family="fan3trunk", comps=[T("A", menu, outs=["o"]), T("B", menu, ins=["i"]), T("C", menu, ins=["i"])], trunks={"t": [list(t) for t in trunk]},
+                links=[dict(L("A", "o", "B", "i", ch1), trunk="t"), dict(L("A", "o", "C", "i", ch2), trunk="t")], order=list(order), end=end)
+
+
 def viaP(ch1, ch2, menu=(1, 2, 3), end=5, order=("A", "P", "B")):
     return dict(family="viaP", comps=[T("A", menu, outs=["o"]), P("P"), T("B", menu, ins=["i"])], links=[L("A", "o", "P", "i", ch1), L("P", "o", "B", "i", ch2)], order=list(order), end=end)
 
